@@ -442,6 +442,42 @@ def run_fresh_reference(prog, tier, repo):
                     sd = single_def(b, sd[2][1][1].local)
                 ok = False
                 why = 'the index is not the store length read before a push'
+                # form 2: push first, then `len() - 1`
+                if sd and sd[1] != 'term' and sd[2][0] in ('bin', 'checked') and sd[2][1] in ('Sub', 'SubWithOverflow', 'SubUnchecked'):
+                    pass
+                minus_one = None
+                sdd = sd
+                hops = 0
+                while sdd and sdd[1] != 'term' and hops < 6:
+                    hops += 1
+                    rv = sdd[2]
+                    if rv[0] == 'bin' and rv[1] in ('Sub', 'SubWithOverflow', 'SubUnchecked') and rv[3][0] == 'k' and rv[3][1].i == 1 \
+                            and rv[2][0] in ('c', 'm') and not rv[2][1].proj:
+                        minus_one = single_def(b, rv[2][1].local)
+                        while minus_one and minus_one[1] != 'term' and minus_one[2][0] == 'use' and minus_one[2][1][0] in ('c', 'm') \
+                                and not minus_one[2][1][1].proj:
+                            minus_one = single_def(b, minus_one[2][1][1].local)
+                        break
+                    if rv[0] == 'use' and rv[1][0] in ('c', 'm'):
+                        pl = rv[1][1]
+                        # `(_t.0)` of a checked-subtraction pair
+                        sdd = single_def(b, pl.local)
+                        continue
+                    break
+                if minus_one and minus_one[1] == 'term' and (callee(minus_one[2])[1] or '').endswith('::len') and minus_one[2][3]:
+                    len_bb = minus_one[0]
+                    store = operand_root(b, minus_one[2][3][0])
+                    store = (store[0], tuple(e[4] for e in store[1] if e[0] == 'f'))
+                    for bj, bl2 in enumerate(b.blocks):
+                        t = bl2.term
+                        if bl2.cleanup or t[0] != 'call' or not (callee(t)[1] or '').endswith('::push') or not t[3]:
+                            continue
+                        s2 = operand_root(b, t[3][0])
+                        s2 = (s2[0], tuple(e[4] for e in s2[1] if e[0] == 'f'))
+                        if s2 == store and bj != len_bb and cfg.nodes_dominate([bj], len_bb) and cfg.nodes_dominate([len_bb], bi):
+                            ok = True
+                    if not ok:
+                        why = '`len() - 1` is only the new entry when a push on the same store dominates reading the length'
                 if sd and sd[1] == 'term' and (callee(sd[2])[1] or '').endswith('::len') and sd[2][3]:
                     len_bb = sd[0]
                     store = operand_root(b, sd[2][3][0])
